@@ -3,6 +3,11 @@
 import json, subprocess, sys
 
 claimed = {
+ "C08": dict(
+   text="Deductive proof of the key table for all rows and all tables: Projection.internRow returns a key of this projection whose stored values are exactly the row buffer with its trailing empty values removed (trimOf: equal on the kept prefix, everything dropped is empty, no trailing empty value — the clause that makes keys from before and after field growth equal), and preserves the representation invariant of the table (every interned node non-nil, owned by this projection, trimmed; buckets own disjoint backing arrays, so appending to one bucket never touches another); keyNode.equalRow holds exactly for element-wise equal value vectors; Key.Get returns the stored value of the field, a missing one reading as empty.  That equal value tuples reach the same node also needs the hash to be a function of the row (hash/maphash is external: unconstrained), and the projection closures write the row buffer through an interior pointer that aliases Projection.row, which the typed-heap model does not express: key identity across field growth, exclusion of specific keys in every parse order, internal configuration never entering .config and the lose-nothing equivalence with the residue are covered by a bounded stand-in on seeded random streams.",
+   note="Trusted: FlattenedFields (sync.Once + recursive closure) returns non-nil fields and leaves row and key table alone; hash/maphash calls are unconstrained (any hash value: the proof does not depend on it).  Bounded only: populateRow, the .config/.fullname/specific-key closures, newExtractorFullName, Residue, ProjectValues.",
+   technique="contract-based deductive verification (own VC generator over go/ssa; nested map-of-slices representation invariant with ownership; z3/cvc5) + bounded stand-in for the projection closures",
+   design="5/C08"),
  "C17": dict(
    text="Deductively proved: Sort goes through the stable library sort (the abstract predicate stableSorted is established only by sort.SliceStable's assumed contract, so replacing it by sort.Slice fails the obligation); UTest and TTest compare exactly the retained values (RValues) of the old and the new side, in that order, two-sided, return the test's p-value and map a test error to pval == -1 with a non-nil error.  The table construction (Tables: outlier fence and retained values, the significance gate, percentage, direction, notes, first-appearance order, geomean) iterates maps and is not under contract: covered by a bounded stand-in that recomputes every cell independently.",
    note="Trusted: the two-sample tests are functions of their arguments (identity of the samples passed); sort.SliceStable is stable.  min <= mean <= max is a floating-point accuracy statement checked only on the bounded corpus.",
